@@ -36,6 +36,7 @@ var checks = map[string]entry{
 	"C16": {"model_checking", props.C16},
 	"C17": {"model_checking", props.C17},
 	"C19": {"model_checking", props.C19},
+	"C20": {"model_checking", props.C20},
 }
 
 func main() {
